@@ -113,7 +113,7 @@ func (f *Foto) IsMonthZhai() bool {
 
 func (f *Foto) IsDayYangGong() bool {
 	for i := f.GetFestivals().Front(); i != nil; i = i.Next() {
-		o := i.Value.(FotoFestival)
+		o := i.Value.(*FotoFestival)
 		if strings.Compare("杨公忌", o.GetName()) == 0 {
 			return true
 		}
